@@ -139,7 +139,8 @@ def run_batch(chk, batch, judge_now):
                                  f"({spelling}) is refused: {r['errors'][0]['msg'][:120]}", {"lang": lang, "enum": enum, "rule": rule, "variants": variants, "tag": tag,
                                  "content": content, "spelling": spelling}, "the wire strings of SerdeAttrs!VariantWire", "refused")
                     continue
-                raise ToolError(f"case rejected: {r['errors']}\n{srcs[batch.index(b)]}")
+                chk.refused(f"{lang}/{enum}", f"{lang}: enum case rejected: {str(r['errors'])[:200]}", {"lang": lang, "enum": enum, "rule": rule, "variants": variants, "tag": tag, "content": content})
+                continue
             o = observe_enum(lang.split("+")[0], r["obs"])
             if judge_now:
                 judge(chk, lang, enum, rule, variants, tag, content, o, exp, desc)
